@@ -21,6 +21,7 @@ type scriptOpts struct {
 	visitText   bool // lines render visited_count/visited
 	enterProbe  bool // every node starts with <<call enter("title")>>
 	noCommands  bool
+	endWithJump int // n > 0: a node body ends with a jump in n of n+1 cases
 	random      bool                                // use dice/random/random_range in lines, sets and conditions
 	extraStmt   func(g *scriptGen, depth int) *Stmt // property-specific statements
 }
@@ -305,6 +306,15 @@ func genScript(t *rapid.T, o scriptOpts) *Script {
 				continue
 			}
 			node.Body = append(node.Body, s)
+		}
+		if o.endWithJump > 0 && rapid.IntRange(0, o.endWithJump).Draw(t, "endjump") != 0 {
+			if tgt := g.jumpTarget(); tgt != "" {
+				if rapid.Bool().Draw(t, "byexpr") {
+					node.Body = append(node.Body, &Stmt{K: "jumpx", E: str(tgt)})
+				} else {
+					node.Body = append(node.Body, &Stmt{K: "jump", Target: tgt})
+				}
+			}
 		}
 		nodes = append(nodes, node)
 	}
